@@ -5,6 +5,7 @@ package main
 import (
 	"fmt"
 	"go/ast"
+	"go/constant"
 	"go/token"
 	"go/types"
 	"sort"
@@ -99,6 +100,8 @@ type Unit struct {
 	refNames map[string]*Val
 	callAssertSeen map[int]bool
 	sentinels map[string]bool
+	plainErrs []string
+	usesErrIs bool
 }
 
 const maxPaths = 6000
@@ -655,6 +658,8 @@ type Engine struct {
 	tagNames  map[string]bool
 	timeT     types.Type
 	contractFiles []string
+	pkgVarCache map[*types.Var][]constant.Value
+	pkgVarDone map[*types.Var]bool
 }
 
 func (e *Engine) indexFuncs() {
@@ -739,4 +744,79 @@ func sortedNotes(m map[string]bool) []string {
 func (u *Unit) pos(n ast.Node) string {
 	p := u.eng.fset.Position(n.Pos())
 	return fmt.Sprintf("%s:%d", strings.TrimPrefix(p.Filename, "/repo/"), p.Line)
+}
+
+// pkgVarInit returns the constant elements of a package-level slice variable's initialiser, or nil if the
+// variable is not an immutable constant table.
+func (e *Engine) pkgVarInit(o *types.Var) []constant.Value {
+	if e.pkgVarCache == nil {
+		e.pkgVarCache = map[*types.Var][]constant.Value{}
+		e.pkgVarDone = map[*types.Var]bool{}
+	}
+	if e.pkgVarDone[o] {
+		return e.pkgVarCache[o]
+	}
+	e.pkgVarDone[o] = true
+	p := e.allPkgs[o.Pkg().Path()]
+	if p == nil || p.TypesInfo == nil {
+		return nil
+	}
+	var init *ast.CompositeLit
+	written := false
+	for _, f := range p.Syntax {
+		ast.Inspect(f, func(n ast.Node) bool {
+			switch x := n.(type) {
+			case *ast.ValueSpec:
+				for i, nm := range x.Names {
+					if p.TypesInfo.Defs[nm] == o && i < len(x.Values) {
+						if cl, ok := x.Values[i].(*ast.CompositeLit); ok {
+							init = cl
+						}
+					}
+				}
+			case *ast.AssignStmt:
+				for _, l := range x.Lhs {
+					if usesVar(p.TypesInfo, l, o) {
+						written = true
+					}
+				}
+			case *ast.UnaryExpr:
+				if x.Op == token.AND && usesVar(p.TypesInfo, x.X, o) {
+					written = true
+				}
+			case *ast.CallExpr:
+				if id, ok := x.Fun.(*ast.Ident); ok && id.Name == "append" && len(x.Args) > 0 && usesVar(p.TypesInfo, x.Args[0], o) {
+					written = true
+				}
+			}
+			return true
+		})
+	}
+	if init == nil || written {
+		return nil
+	}
+	var out []constant.Value
+	for _, el := range init.Elts {
+		tv, ok := p.TypesInfo.Types[el]
+		if !ok || tv.Value == nil {
+			return nil
+		}
+		out = append(out, tv.Value)
+	}
+	e.pkgVarCache[o] = out
+	return out
+}
+
+func usesVar(info *types.Info, e ast.Expr, o *types.Var) bool {
+	switch x := ast.Unparen(e).(type) {
+	case *ast.Ident:
+		return info.Uses[x] == o
+	case *ast.IndexExpr:
+		return usesVar(info, x.X, o)
+	case *ast.SliceExpr:
+		return usesVar(info, x.X, o)
+	case *ast.SelectorExpr:
+		return info.Uses[x.Sel] == o
+	}
+	return false
 }
